@@ -966,3 +966,112 @@ Proof.
   destruct (E4 _ (conj B1 B2)) as (bf & bf' & G1 & G2 & E).
   exists (bid bf, buf_off (c_ar s1) i). unfold addr, buf_index, buf_off in *. rewrite E1, E2, G1, G2, E. auto.
 Qed.
+
+(* ---- when every call has returned, the size is the old size plus the sum of the deltas *)
+From Coq Require Import Permutation.
+Definition zsum (l : list Z) : Z := fold_right Z.add 0 l.
+
+Lemma zsum_perm l l' : Permutation l l' -> zsum l = zsum l'.
+Proof. induction 1; simpl; lia. Qed.
+
+Lemma chain_sum l : forall p q, chain p l = Some q -> q = p + zsum (map (fun x => snd (snd x) - fst (snd x)) l).
+Proof.
+  induction l as [|[t [lo hi]] r IH]; intros p q H; simpl in *.
+  - injection H as <-. lia.
+  - destruct ((lo =? p) && (lo <=? hi)) eqn:E; [|discriminate]. apply andb_prop in E. destruct E as [E _]. apply Z.eqb_eq in E.
+    rewrite (IH _ _ H). lia.
+Qed.
+
+Lemma zsum_nth deltas : zsum (map (fun t => nth t deltas 0) (seq 0 (length deltas))) = zsum deltas.
+Proof.
+  induction deltas as [|d r IH]; simpl; [reflexivity|].
+  rewrite <- seq_shift, map_map. simpl. rewrite IH. reflexivity.
+Qed.
+
+Theorem growby_total_proof a0 nid deltas s :
+  arena_wf a0 -> Forall (fun d => 0 <= d) deltas -> reach step (init_state a0 nid deltas) s ->
+  finished s = true -> a_pos (c_ar s) = a_pos a0 + zsum deltas.
+Proof.
+  intros WF Hd R F. destruct (Inv_reach a0 _ s (Inv_init a0 nid deltas WF Hd) R) as (IA & IB & IC).
+  destruct (reach_shape _ _ R) as (L & D). simpl in L. rewrite map_length in L.
+  rewrite (chain_sum _ _ _ (ib_chain _ s IB)). f_equal.
+  assert (E : map (fun x => snd (snd x) - fst (snd x)) (c_log s) = map (fun t => nth t deltas 0) (map fst (c_log s))).
+  { rewrite map_map. apply map_ext_in. intros [t [lo hi]] Hin. simpl.
+    destruct (ib_log _ s IB t _ Hin) as (th & Ht & _ & Er). specialize (D t). rewrite init_delta, Ht in D. simpl in D.
+    symmetry in D. apply (nth_error_nth _ _ 0) in D. rewrite D. unfold range_of in Er. injection Er as <- <-. lia. }
+  rewrite E, <- zsum_nth. apply zsum_perm, Permutation_map. apply NoDup_Permutation.
+  - apply (ib_nodup _ s IB).
+  - apply seq_NoDup.
+  - intros t. rewrite in_seq. split.
+    + intros Hin. apply in_map_iff in Hin. destruct Hin as ([t1 r] & <- & Hin). simpl.
+      destruct (ib_log _ s IB t1 r Hin) as (th & Ht & _). assert (t1 < length (c_thr s))%nat by (apply nth_error_Some; congruence). lia.
+    + intros Ht. destruct (nth_error (c_thr s) t) as [th|] eqn:N; [|apply nth_error_None in N; lia].
+      unfold finished in F. rewrite forallb_forall in F. pose proof (F th (nth_error_In _ _ N)) as Dn.
+      assert (C : claimed th = true) by (unfold is_done in Dn; unfold claimed; destruct (t_pc th); try discriminate; reflexivity).
+      apply in_map_iff. exists (t, range_of th). split; [reflexivity|]. apply (ib_claimed _ s IB t th N C).
+Qed.
+
+(* ------------------------------------------------------------------------------------------------ layer (a) *)
+Lemma run_thread_reach fuel : forall s t s', run_thread fuel s t = Some s' ->
+  reach step s s' /\ exists th, nth_error (c_thr s') t = Some th /\ t_pc th = PDone.
+Proof.
+  induction fuel as [|f IH]; intros s t s' H; simpl in H; [discriminate|].
+  destruct (nth_error (c_thr s) t) as [th|] eqn:Ht; [|discriminate].
+  destruct (is_done th) eqn:Dn.
+  - injection H as <-. split; [apply reach_refl|]. exists th. split; [exact Ht|]. unfold is_done in Dn. destruct (t_pc th); try discriminate; reflexivity.
+  - destruct (step s t []) as [[[s1 ch1] site1]|] eqn:E; [|discriminate].
+    destruct (IH _ _ _ H) as (R & X). split; [|exact X].
+    eapply reach_trans; [|exact R]. eapply reach_step; [apply reach_refl|exact E].
+Qed.
+
+Theorem grow_spec_proof a d nid a' r n' :
+  arena_wf a -> 0 <= d -> grow a d nid = Some (a', r, n') ->
+  r = a_pos a /\ a_pos a' = a_pos a + d /\ arena_wf a' /\
+  (forall i, r <= i < r + d -> get a' i = Some dflt) /\
+  (forall i, 0 <= i < a_pos a -> get_cell a' i = get_cell a i) /\
+  (forall i, 0 <= i < a_cap a -> exists ad, addr a i = Some ad /\ addr a' i = Some ad).
+Proof.
+  intros WF Hd G. unfold grow in G.
+  destruct (run_thread (grow_fuel a d) (init_state a nid [d]) 0) as [s|] eqn:Rn; [|discriminate].
+  destruct (c_ub s) eqn:UB; [discriminate|].
+  destruct (c_thr s) as [|th0 rest] eqn:Th; [discriminate|]. injection G as <- <- <-.
+  destruct (run_thread_reach _ _ _ _ Rn) as (R & th & Ht & Epc). rewrite Th in Ht. simpl in Ht. injection Ht as ->.
+  assert (FD : Forall (fun d => 0 <= d) [d]) by (constructor; [exact Hd|constructor]).
+  destruct (Inv_reach a _ s (Inv_init a nid [d] WF FD) R) as (IA & IB & IC).
+  destruct (reach_shape _ _ R) as (L & D). simpl in L. rewrite Th in L. simpl in L.
+  assert (rest = []) by (destruct rest; [reflexivity|simpl in L; discriminate]). subst rest.
+  assert (Ht : nth_error (c_thr s) 0 = Some th) by (rewrite Th; reflexivity).
+  assert (Cl : claimed th = true) by (unfold claimed; rewrite Epc; reflexivity).
+  assert (Ed : t_delta th = d). { specialize (D 0%nat). rewrite Ht in D. simpl in D. congruence. }
+  (* the log is exactly [(0, range)] *)
+  assert (Only : forall t r, In (t, r) (c_log s) -> t = 0%nat).
+  { intros t r Hin. destruct (ib_log _ s IB t r Hin) as (th1 & H1 & _).
+    assert (t < length (c_thr s))%nat by (apply nth_error_Some; congruence). rewrite Th in H. simpl in H. lia. }
+  pose proof (ib_claimed _ s IB 0%nat th Ht Cl) as Hin. pose proof (ib_nodup _ s IB) as ND. pose proof (ib_chain _ s IB) as CH.
+  assert (LG : c_log s = [(0%nat, range_of th)]).
+  { destruct (c_log s) as [|[t1 r1] [|[t2 r2] l]] eqn:EL.
+    - destruct Hin.
+    - destruct Hin as [Hin|[]]. rewrite Hin. reflexivity.
+    - exfalso. assert (t1 = 0%nat) by (apply (Only t1 r1); left; reflexivity).
+      assert (t2 = 0%nat) by (apply (Only t2 r2); right; left; reflexivity). subst. simpl in ND. inversion ND; subst. apply H1. left; reflexivity. }
+  rewrite LG in CH. unfold range_of in CH. simpl in CH.
+  destruct ((t_old th =? a_pos a) && (t_old th <=? t_old th + t_delta th)) eqn:E; [|discriminate].
+  apply andb_prop in E. destruct E as [E _]. apply Z.eqb_eq in E. injection CH as CH.
+  (* quiescent again *)
+  assert (MN : c_mutex s = None).
+  { destruct (c_mutex s) as [t0|] eqn:M; [|reflexivity]. exfalso.
+    pose proof (ia_mutex s IA) as IM. rewrite M in IM. destruct IM as (th0 & L0 & K0).
+    assert (t0 = 0%nat). { assert (t0 < length (c_thr s))%nat by (apply nth_error_Some; congruence). rewrite Th in H. simpl in H. lia. }
+    subst t0. assert (th0 = th) by congruence. subst th0. apply lock_ok_locked in K0. rewrite Epc in K0. discriminate. }
+  pose proof (ia_mutex s IA) as IM. rewrite MN in IM.
+  split; [exact E|]. split; [lia|]. split; [split; [apply ia_ok, IA|split; [apply ia_pos, IA|exact IM]]|].
+  split.
+  - intros i Hi. pose proof (ic_thr a s IC 0%nat th Ht) as K. unfold constructed_upto in K. rewrite Epc in K. apply K. lia.
+  - split; [apply (ic_old a s IC)|].
+    assert (IA0 : InvA (init_state a nid [d])) by (apply (Inv_init a nid [d] WF FD)).
+    destruct (reach_stable _ s IA0 R) as (_ & (E1 & E2 & E3 & E4)). simpl in *.
+    destruct WF as (OK & Hpos & Hcap).
+    intros i Hi. destruct (buf_index_lt a i OK ltac:(lia)) as (B1 & B2).
+    destruct (E4 _ (conj B1 B2)) as (bf & bf' & G1 & G2 & Eb).
+    exists (bid bf, buf_off a i). unfold addr, buf_index, buf_off in *. rewrite E1, E2, G1, G2, Eb. auto.
+Qed.
